@@ -126,12 +126,12 @@ theorem cnt_leafStmt (m : Node) (s : Stmt) (hn : ∀ l r i n body w, s ≠ .nest
     cnt m s = if anc (Stmt.lhs s) m then 1 else 0 := by
   cases s with
   | nest l r i n body w => exact absurd rfl (hn l r i n body w)
-  | skip l => by_cases h : anc l m = true <;> simp [cnt, marks, Stmt.lhs, List.countP_cons, h]
-  | noMatch l w => by_cases h : anc l m = true <;> simp [cnt, marks, Stmt.lhs, List.countP_cons, h]
-  | simple l r e w => by_cases h : anc l m = true <;> simp [cnt, marks, Stmt.lhs, List.countP_cons, h]
-  | sliceCopy l r t => by_cases h : anc l m = true <;> simp [cnt, marks, Stmt.lhs, List.countP_cons, h]
-  | sliceLoop l r t => by_cases h : anc l m = true <;> simp [cnt, marks, Stmt.lhs, List.countP_cons, h]
-  | sliceCast l r t c => by_cases h : anc l m = true <;> simp [cnt, marks, Stmt.lhs, List.countP_cons, h]
+  | skip l => by_cases h : anc l m = true <;> simp [cnt, marks, Stmt.lhs, h]
+  | noMatch l w => by_cases h : anc l m = true <;> simp [cnt, marks, Stmt.lhs, h]
+  | simple l r e w => by_cases h : anc l m = true <;> simp [cnt, marks, Stmt.lhs, h]
+  | sliceCopy l r t => by_cases h : anc l m = true <;> simp [cnt, marks, Stmt.lhs, h]
+  | sliceLoop l r t => by_cases h : anc l m = true <;> simp [cnt, marks, Stmt.lhs, h]
+  | sliceCast l r t c => by_cases h : anc l m = true <;> simp [cnt, marks, Stmt.lhs, h]
 
 /-! ## the invariant, all levels down -/
 
@@ -167,7 +167,7 @@ theorem structToStruct_covered : ∀ (fuel : Nat) (l r : Node) (args : List Node
     refine ⟨hs.1, ?_⟩
     intro l' r' i n body w he
     obtain ⟨_, hrec, hne⟩ := hs.2 l' r' i n body w he
-    exact ⟨hne, ih v r' [] body hrec⟩
+    exact ⟨hne, ih v r' args body hrec⟩
 
 /-! ## reachable members and leaves -/
 
